@@ -15,7 +15,7 @@ import time
 
 import uci
 
-READY_TIMEOUT = 8.0
+READY_TIMEOUT = 15.0
 INT_MAX = 2147483647
 
 
@@ -90,28 +90,24 @@ def run(binary, steps, env=None, settle=3.0, final_stop=True):
         return lines
 
     def fence():
-        """isready -> readyok; returns (answered, main-thread lines seen before readyok)"""
-        with s.lock:
-            mark = len(s.out)
-        if not s.send("isready"):
-            return False, []
-        t_end = time.time() + READY_TIMEOUT
-        seen = []
-        while time.time() < t_end:
+        """isready -> readyok; returns (answered, []).  An unanswered isready is probed a second time before the engine
+        is declared wedged (a loaded machine must not look like a wedged engine)."""
+        for attempt in (0, 1):
             with s.lock:
-                new = [l for _, l in s.out[mark:]]
-            if "readyok" in new:
-                return True, new[:new.index("readyok")]
+                target = s.ready_count + 1
+            if not s.send("isready"):
+                return False, []
+            if s.wait_until(lambda: s.ready_count >= target, READY_TIMEOUT):
+                return True, []
             if not s.alive():
-                return False, new
-            time.sleep(0.002)
-        return False, seen
+                return False, []
+        return False, []
 
     accepted_gos = [0]
 
     def count_best():
         with s.lock:
-            return sum(1 for _, l in s.out if l.startswith("bestmove"))
+            return s.best_count
 
     sent_quit = False
     wedged = False
@@ -167,16 +163,8 @@ def run(binary, steps, env=None, settle=3.0, final_stop=True):
                 break
         elif "waitbest" in st:
             # wait until every accepted go so far has been answered
-            t_end = time.time() + st["waitbest"]
             want = accepted_gos[0]
-            ok = False
-            while time.time() < t_end:
-                if count_best() >= want:
-                    ok = True
-                    break
-                if not s.alive():
-                    break
-                time.sleep(0.001)
+            ok = s.wait_until(lambda: s.best_count >= want, st["waitbest"])
             pump()
             events.append({"ev": "waited", "ok": ok, "t": int((time.time() - s.t0) * 1000)})
         elif "sleep" in st:
